@@ -1499,6 +1499,9 @@ class FDE:
                                for x in cands)
                 if isinstance(o, Obj) and isinstance(c, tuple) and c[0] == 'class':
                     return self.repo.is_subclass(o.cls, c[1])
+                if isinstance(o, Obj) and o.cls in self.repo.classes and cands and all(isinstance(x, tuple) and len(x) == 2 and x[0] == 'class' for x in cands):
+                    mro_ = self.repo.mro(o.cls)
+                    return any(x[1] in mro_ for x in cands)      # a tuple of classes (repo or built-in ones)
                 if isinstance(o, Obj) and cands and all(isinstance(x, tuple) and len(x) == 2 and x[0] == 'ext' and isinstance(x[1], type) for x in cands):
                     # a node object against a stdlib ABC: decided by the built-in base of its class (dict / list / tuple / str ...)
                     mro_ = self.repo.mro(o.cls) if o.cls in self.repo.classes else []
@@ -1577,6 +1580,8 @@ class FDE:
                 return self.stub(n, None, args, kwargs)       # a local function the rule replaces by a stand-in
             if n in env and isinstance(env[n], tuple) and env[n] and env[n][0] == 'closure':
                 return self._invoke(env[n][1], args, kwargs, base_env=env[n][2])
+            if n in env and isinstance(env[n], tuple) and len(env[n]) == 2 and env[n][0] == 'class' and env[n][1] in ('list', 'tuple', 'dict') and len(args) == 1 and not kwargs and isinstance(args[0], Obj):
+                return Opaque('%s(%s)' % (env[n][1], args[0].name))       # `kind = list if ... else tuple; kind(node)`: as the direct call
             if n in env and isinstance(env[n], tuple) and len(env[n]) == 2 and env[n][0] == 'class' and env[n][1] in self.repo.classes and env[n][1] not in self.stubs and self._plain_class(env[n][1]):
                 return self._construct_plain(env[n][1], args, kwargs, env, fi)
             if n in env and isinstance(env[n], tuple) and len(env[n]) == 2 and env[n][0] == 'class':
